@@ -415,7 +415,13 @@ def _decode_parsed(
             if unit in ("v", "a", "var", "varh"):
                 value = float(item.values[0].value)
             elif unit in ("kw", "kwh", "kvar", "kvarh"):
-                value = int(float(item.values[0].value) * 1000)
+                try:
+                    value = int(float(item.values[0].value) * 1000)
+                except OverflowError as ex:
+                    # e.g. "1E999" is read as infinity
+                    raise ValueError(
+                        f"Value out of range: {item.values[0].value}"
+                    ) from ex
             else:
                 if obis.to_group_cdr_str() == "1.0.0":
                     value = _parse_p1_datetime(item.values[0].value)
